@@ -252,11 +252,17 @@ def value_stored_and_own_lumps_cleared(parsed, lumpA, value, LA, LB, LC, dC):
 from pyvc.symexec import Noop
 for _c in (pl_get, pl_set):
     _c.globals['LOGGER'] = Noop()
-PROOFS = [pl_get, pl_set]
+# The visibility view is rewritten through runlength_encode / runlength_decode; "an unchanged save keeps the view" rests on
+# those two being inverse for rows of any length.  The C11 lemmas about them are re-run here (as C17 re-runs C09's).
+from contracts import C11_lumps as _C11      # noqa: E402
+RLE_ENC = REG.add(_C11.enc)
+RLE_DEC = REG.add(_C11.dec)
+PROOFS = [pl_get, pl_set, RLE_ENC, RLE_DEC]
 
 
 # ------------------------------------------------------------------------------------------------ bounded subsets
 _BASE = {}
+_ASSIGNED = {}       # what was put into the enriched input through the public API, per view
 
 
 def _enriched(repo, tmp):
@@ -268,11 +274,13 @@ def _enriched(repo, tmp):
     bsp.props
     bsp.static_prop_version = B.StaticPropVersion.V10
     bsp.game_lumps[B.LMP_ID_STATIC_PROPS].version = 10
-    for view, n in (('cubemaps', 3), ('props', 3), ('visibility', 4), ('overlays', 2), ('detail_props', 3),
+    for view, n in (('cubemaps', 3), ('props', 3), ('visibility', 4), ('overlays', 2), ('detail_props', 12),
                     ('water_leaf_info', 2), ('primitives', 2)):
         val = S.gen_value(bsp, view, rng, n)
         if val is not None:
             setattr(bsp, view, val)
+            if view != 'props':         # (props refer to visleaf objects: compared by C11 through leaf positions)
+                _ASSIGNED[view] = S.dump(val)
     bsp.pakfile.writestr('materials/test/a.vmt', b'"LightmappedGeneric"\n{\n}\n')
     path = os.path.join(tmp, 'enriched.bsp')
     bsp.save(path)
@@ -396,6 +404,14 @@ def b_subsets(ctx):
                 ctx.violation(f'reference={label}', f'parsing every view of the {label} BSP on a fresh object raised '
                               f'{type(e).__name__}: {e}', [label, []])
                 continue
+            if label == 'enriched':
+                # the input itself went through the writers once: it must hold what was assigned, or every later
+                # comparison would be between two equally wrong files
+                for view, want in _ASSIGNED.items():
+                    ctx.case(('enriched-input', view))
+                    if ref.get(view) != want:
+                        ctx.violation(f'input=enriched.{view}', f'the enriched input was given {str(want)[:200]} for view '
+                                      f'{view} and reads back {str(ref.get(view))[:200]}', ['enriched-input', view])
             orders = [()] + [(v,) for v in S.VIEWS]
             pairs = [p for p in itertools.permutations(S.VIEWS, 2)]
             if not ctx.thorough:
@@ -516,6 +532,10 @@ def _replay_subset(inp):
     repo = os.environ.get('VERIF_REPO', '/repo')
     tmp = tempfile.mkdtemp(prefix='c10r_')
     try:
+        if inp[0] == 'enriched-input':
+            ref, _ = _reference(_enriched(repo, tmp))
+            bad = None if ref.get(inp[1]) == _ASSIGNED.get(inp[1]) else f'view {inp[1]} of the enriched input reads back differently'
+            return {'failed': bool(bad), 'observation': bad}
         path = _enriched(repo, tmp) if inp[0] == 'enriched' else os.path.join(repo, S.SAMPLE)
         ref, raw0 = _reference(path)
         bad = _subset_case(path, ref, raw0, tuple(inp[1]), tmp, _owned_lumps())
